@@ -1,5 +1,5 @@
 #!/venv/bin/python
-"""import_seeds.py Cxx [Cyy ...] [--missed Cxx-i,...]
+"""import_seeds.py Cxx [Cyy ...] [--missed=Cxx-i,...] [--offset=K]   (change_i.diff is filed as Cxx-(K+i))
 Verifies each sub-agent change in its scratch worktree (tests pass with it, demo fails with it / passes without),
 runs every registered check against /repo with the change applied (undoing it straight afterwards), and files the change
 under /verif/seeded/<id>/ with patch.diff, demo.py, notes.md and meta.json."""
@@ -15,13 +15,17 @@ for a in sys.argv[1:]:
     if a.startswith("--missed="):
         missed = set(a.split("=", 1)[1].split(","))
 ALL = [f"C{i:02d}" for i in range(1, 21)]
+offset = 0
+for a in sys.argv[1:]:
+    if a.startswith("--offset="):
+        offset = int(a.split("=", 1)[1])
 for P in props:
-    for I in (1, 2):
+    for I in range(1, 10):
         out, wt = f"/tmp/out_{P}", f"/tmp/wt_{P}"
         diff = f"{out}/change_{I}.diff"
         if not os.path.exists(diff):
-            print(P, I, "no diff"); continue
-        sid = f"{P}-{I}"
+            continue
+        sid = f"{P}-{I + offset}"
         sh("git checkout -q -- . ; git clean -fdq", wt)
         rc_clean, o_clean = sh(f"PYTHONPATH={wt} /venv/bin/python {out}/demo_{I}.py", wt)
         rc_apply, _ = sh(f"git apply {diff}", wt)
